@@ -239,6 +239,10 @@ bool FIXReader::read(f8String& to)	// read a complete FIX message
 				if (*tag != '9')
 					throw IllegalMessage(to, FILE_LINE);
 
+				// BodyLength is a plain decimal number; more digits than the limit has cannot be in range (and would wrap)
+				const size_t vlen(strlen(val));
+				if (vlen == 0 || vlen > 6 || strspn(val, "0123456789") != vlen)
+					throw IllegalMessage(to, FILE_LINE);
 				const unsigned mlen(fast_atoi<unsigned>(val));
 				if (mlen == 0 || mlen > _max_msg_len - _bg_sz - _chksum_sz) // invalid msglen
 					throw InvalidBodyLength(mlen);
